@@ -441,7 +441,7 @@ def run_loop(ctx, fr, path, src: IterSrc, body: LoopBody, peel=0):
     lo, hi = simp(src.lo), simp(src.hi)
     n = simp(hi - lo)
     # concrete small trip count: unroll
-    if z3.is_int_value(n) and n.as_long() <= UNROLL_MAX:
+    if z3.is_int_value(n) and n.as_long() <= (16 if ctx.spec_mode else UNROLL_MAX):      # specs walk concrete call logs
         return unroll(ctx, fr, path, src, body, lo, n.as_long())
     return summarise(ctx, fr, path, src, body, lo, hi, peel)
 
